@@ -25,7 +25,7 @@ RULE = ("R-score notes, containers, bars and tracks played through play_Note/Not
         "segments and the timed on/off multiset, per-(pitch, channel) balance, on-order (sequential API), total sleep, instrument "
         "announcements, observer trace and return value are compared with the model. Non-trivial: a case with a chord and a rest, "
         "a tempo change, or >= 2 parallel parts; a refused control change."
-        ' Also: pitches up to 135 (octaves 0-10), tempo marks on empty containers, twin bars, a second pass of the same music on the same sequencer must emit the same events; chords that are not in ascending order, entries held in a user subclass of NoteContainer and tracks on a user subclass of MidiInstrument; control numbers / values that are no integers and lie just outside 0..128.')
+        ' Also: pitches up to 135 (octaves 0-10), tempo marks on empty containers, twin bars, a second pass of the same music on the same sequencer must emit the same events; chords that are not in ascending order, entries held in a user subclass of NoteContainer and tracks on a user subclass of MidiInstrument; control numbers / values that are no integers and lie just outside 0..128; play_Bar / play_Track called positionally, by keyword and with the documented defaults (120 bpm).')
 ASSUMPTIONS = ["in parallel playback tempo-carrying containers are generated in the first part only (two simultaneous tempo changes "
                "have no stated winner)", "parallel parts have the same number of bars, the same meter per bar index and >= 1 entry per bar",
                "MidiInstrument cases have instrument_nr == names.index(name) (unknown name: instrument_nr 1), so 'the MIDI instrument's "
@@ -245,14 +245,25 @@ def check_sequential(ctx, case):
         _check_observers(ctx, s, obs, mode)
         ctx.note_case(len(exp) > 1, ["seq:nc"])
         return
+    form = case.get("form", "pos")
+    if form == "default":
+        bpm = 120  # channel and tempo left to the documented defaults (channel 1, 120 bpm); notes keep their own channel anyway
+
+    def call(name, obj):
+        f_ = getattr(s, name)
+        if form == "default":
+            return ctx.ok(name, f_, obj)
+        if form == "kw":
+            return ctx.ok(name, lambda: f_(obj, bpm=bpm, channel=4))
+        return ctx.ok(name, f_, obj, 4, bpm)
     if kind == "bar":
         bd = case["bar"]
-        r = ctx.ok("play_Bar", s.play_Bar, mg.build_bar(bd), 4, bpm)
+        r = call("play_Bar", mg.build_bar(bd))
         sets = [[_entries(bd)]]
         f = SG.features({"name": None, "instr": None, "bars": [bd]})
     else:
         td = case["track"]
-        r = ctx.ok("play_Track", s.play_Track, mg.build_track(td), 4, bpm)
+        r = call("play_Track", mg.build_track(td))
         sets = [[_entries(b)] for b in td["bars"]]
         f = SG.features(td)
     if failed(r):
@@ -263,9 +274,9 @@ def check_sequential(ctx, case):
     # the same sequencer plays the same music again: the second pass emits the same events
     first = list(s.log)
     if kind == "bar":
-        ctx.ok("play_Bar", s.play_Bar, mg.build_bar(case["bar"]), 4, bpm)
+        call("play_Bar", mg.build_bar(case["bar"]))
     else:
-        ctx.ok("play_Track", s.play_Track, mg.build_track(case["track"]), 4, bpm)
+        call("play_Track", mg.build_track(case["track"]))
     ctx.check(s.log[len(first):] == first, "replay/second-pass-differs", lambda: "first pass %d events, second pass %d" % (len(first), len(s.log) - len(first)))
     ctx.note_case(("chord" in f and "rest" in f) or "tempo-change" in f, ["seq:%s" % kind] + ["seq:" + x for x in sorted(f)] + ["obs:" + mode])
 
@@ -362,7 +373,7 @@ def sub_sequential(ctx, shard, n):
     cfg = _cfg()
     notes = st.lists(SG.note_st(cfg), min_size=1, max_size=4, unique_by=lambda x: T.pitch(x[0], x[1])).map(
         lambda ns: sorted(ns, key=lambda x: T.pitch(x[0], x[1])))
-    common = {"bpm": st.integers(30, 300), "obs": st.sampled_from(OBS)}
+    common = {"bpm": st.integers(30, 300), "obs": st.sampled_from(OBS), "form": st.sampled_from(["pos", "pos", "kw", "default"])}
     strat = st.one_of(
         st.fixed_dictionaries(dict(common, kind=st.just("note"), notes=notes)),
         st.fixed_dictionaries(dict(common, kind=st.just("nc"), notes=notes)),
